@@ -25,21 +25,41 @@ def bits_f64(h):
 
 
 _built = {}
+REPO = os.environ.get('VERIF_REPO', '/repo')
+
+
+def _crate_dir():
+    """the helper crate; for an alternative repository (VERIF_REPO, used to evaluate seeded changes on a copy) a scratch
+    copy of the crate with its path dependency rewritten"""
+    if REPO == '/repo':
+        return NATIVE_DIR
+    import hashlib
+    import shutil
+    d = os.path.join(os.environ.get('VERIF_SCRATCH', '/tmp'), 't2n-native-' + hashlib.sha256(REPO.encode()).hexdigest()[:10])
+    if not os.path.exists(os.path.join(d, 'Cargo.toml')):
+        os.makedirs(os.path.join(d, 'src'), exist_ok=True)
+        toml = open(os.path.join(NATIVE_DIR, 'Cargo.toml')).read().replace('path = "/repo"', 'path = "%s"' % REPO)
+        open(os.path.join(d, 'Cargo.toml'), 'w').write(toml)
+        if os.path.exists(os.path.join(NATIVE_DIR, 'Cargo.lock')):
+            shutil.copy(os.path.join(NATIVE_DIR, 'Cargo.lock'), d)
+    shutil.copy(os.path.join(NATIVE_DIR, 'src', 'main.rs'), os.path.join(d, 'src', 'main.rs'))
+    return d
 
 
 def build(profile='dev'):
     if profile in _built:
         return _built[profile]
+    crate = _crate_dir()
     env = dict(os.environ)
     env['CARGO_NET_OFFLINE'] = 'true'
     env['RUSTFLAGS'] = '--cfg text2num_verif'
     cmd = ['cargo', 'build', '--offline', '--quiet']
     if profile == 'release':
         cmd.append('--release')
-    r = subprocess.run(cmd, cwd=NATIVE_DIR, env=env, capture_output=True, text=True)
+    r = subprocess.run(cmd, cwd=crate, env=env, capture_output=True, text=True)
     if r.returncode != 0:
         raise RuntimeError('native helper build failed:\n' + r.stderr[-4000:])
-    path = os.path.join(NATIVE_DIR, 'target', 'debug' if profile == 'dev' else 'release', 't2n-native')
+    path = os.path.join(crate, 'target', 'debug' if profile == 'dev' else 'release', 't2n-native')
     _built[profile] = path
     return path
 
